@@ -13,14 +13,16 @@ Definition already_in_group (s : has) : bool := has_eqb s HY || has_eqb s HM.  (
 
 (* ---- UpdateableGroup.update_pull ---- *)
 Inductive dispatch := DCancel | DSkip | DPull | DPullForce.
-Definition update_pull (dst_state : has) (src_active : bool) (src_state : has) (src_ready : bool) : dispatch :=
+(* [local_corrupt]: one of the nodes this daemon pulls to holds a copy recorded corrupt.  Only then is the search for an existing
+   file skipped: a corrupt copy on another node of the group says nothing about the files on ours. *)
+Definition update_pull (dst_state : has) (src_active : bool) (src_state : has) (src_ready : bool) (local_corrupt : bool) : dispatch :=
   if is_y dst_state then DCancel
   else if is_m dst_state then DSkip
   else if negb src_active then DSkip
   else if src_gone src_state then DCancel
   else if is_m src_state then DSkip
   else if negb src_ready then DSkip
-  else if is_x dst_state then DPullForce else DPull.
+  else if is_x dst_state && local_corrupt then DPullForce else DPull.
 
 (* ---- group_search_async (DefaultGroupIO.pull): what it decides before handing the request to the node ---- *)
 Inductive search := SCancel | SMarkSuspect | SHandOff.
@@ -74,7 +76,7 @@ Inductive chain_result :=
 | CCancelled | CSkipped | CMarkedSuspect | CRefusedByGate | CRan (p : post).
 Definition chain (dst_group_state : has) (src_active : bool) (src_state : has) (src_ready : bool)
                  (file_on_disk gate_ok : bool) (node_state : has) (t : transport) (o : toutcome) : chain_result :=
-  match update_pull dst_group_state src_active src_state src_ready with
+  match update_pull dst_group_state src_active src_state src_ready (is_x node_state) with
   | DCancel => CCancelled
   | DSkip => CSkipped
   | DPullForce => if gate_ok then CRan (pull_task node_state t o) else CRefusedByGate
